@@ -25,6 +25,7 @@ inductive LX where
   | add (a b : LX)
   | sub (a b : LX)
   | mul (a b : LX)
+  | div (a b : LX)
 deriving Repr, DecidableEq
 
 structure Env where
@@ -41,12 +42,14 @@ def LX.eval (e : Env) : LX → Option Nat
   | .add a b => do let x ← a.eval e; let y ← b.eval e; some (x + y)
   | .sub a b => do let x ← a.eval e; let y ← b.eval e; if y ≤ x then some (x - y) else none
   | .mul a b => do let x ← a.eval e; let y ← b.eval e; some (x * y)
+  | .div a b => do let x ← a.eval e; let y ← b.eval e; if y = 0 then none else some (x / y)
 
 /-- conditions of `assert!` / `if … { unreachable_unchecked() }` -/
 inductive BX where
   | lt (a b : LX)
   | ge (a b : LX)
   | eq (a b : LX)
+  | ne (a b : LX)
   | or (p q : BX)
 deriving Repr, DecidableEq
 
@@ -54,6 +57,7 @@ def BX.eval (e : Env) : BX → Option Bool
   | .lt a b => do let x ← a.eval e; let y ← b.eval e; some (decide (x < y))
   | .ge a b => do let x ← a.eval e; let y ← b.eval e; some (decide (y ≤ x))
   | .eq a b => do let x ← a.eval e; let y ← b.eval e; some (decide (x = y))
+  | .ne a b => do let x ← a.eval e; let y ← b.eval e; some (decide (x ≠ y))
   | .or p q => do let x ← p.eval e; let y ← q.eval e; some (x || y)
 
 /-- the two by-value parameters -/
@@ -219,11 +223,14 @@ def run (body : List Stmt) (e : Env) (xs ys : List Nat) : Out :=
 
 /-! ## By-reference bodies: raw pointers with provenance, and the views built from them
 
-`split` on `&GenericArray` / `&mut GenericArray` returns two references made from one raw pointer.  A raw pointer is
-an element offset from the array's address together with the element range it may be used for (the extent of the
-reference it was derived from) and whether it may be written through; a reference built from it must lie inside that
-range (and be writable only if the pointer is), and the mutable references a function returns must not overlap any
-other returned reference.  This is the part of the aliasing rules that does not depend on the order of later accesses. -/
+`split` on `&GenericArray` / `&mut GenericArray` and the slice reinterpretations of src/lib.rs (`from_slice`,
+`chunks_from_slice`, `slice_from_chunks`, … and their `_mut` forms) return references made from raw pointers.  A raw
+pointer is an element offset from the source's address together with the element range it may be used for (the
+extent of the reference it was derived from) and whether it may be written through; a reference built from it must lie
+inside that range (and be writable only if the pointer is); taking the source's pointer *mutably* again reborrows the
+whole source and ends the life of every pointer and view derived earlier; and the mutable references a function returns
+must not overlap any other returned reference.  Offsets and lengths are in elements `T`; `K` is the length of the
+argument slice where there is one. -/
 
 structure RawPtr where
   off : Nat
@@ -238,16 +245,33 @@ structure View where
   wr : Bool
 deriving Repr, DecidableEq
 
+inductive VOut where
+  | views (l : List View)
+  | err          -- `return Err(LengthError)`
+  | panic
+  | ub
+deriving Repr, DecidableEq
+
 inductive VStmt where
-  /-- `let p = self.as_ptr();` (`wr = false`) / `self.as_mut_ptr()` (`wr = true`): the whole array -/
+  /-- `let p = self.as_ptr();` (`wr = false`) / `self.as_mut_ptr()` (`wr = true`): the whole array, `N` elements -/
   | ptrSelf (p : Nat) (wr : Bool)
+  /-- `slice.as_ptr()` / `slice.as_mut_ptr()` of the argument slice, which spans `ext` elements -/
+  | ptrArg (p : Nat) (wr : Bool) (ext : LX)
   /-- `let q = p.add(k);` -/
   | ptrAdd (q p : Nat) (k : LX)
-  /-- `let v = &*(p.add(add) as *const [T; len]);` / `&mut *(… as *mut _)` -/
+  /-- `&*(p.add(add) as *const [T; len])` / `&mut *…` / `from_raw_parts(_mut)(p.add(add) as _, count)` with `len` elements -/
   | viewAt (v p : Nat) (add len : LX) (wr : Bool)
   /-- `let q = v.as_ptr();` / `v.as_mut_ptr()` of a view made earlier: the pointer is good for that view only -/
   | ptrOfView (q v : Nat) (wr : Bool)
-  /-- the function's value: the tuple of these views -/
+  /-- `if c { panic!(…) }` -/
+  | panicIf (c : BX)
+  /-- `assert!(c, …)` -/
+  | assertThat (c : BX)
+  /-- `if c { return Err(LengthError) }` -/
+  | errIf (c : BX)
+  /-- `if c { assert!(a, …); return (&[], &[], …) }`: `count` empty views -/
+  | emptyIf (c a : BX) (count : Nat) (wr : Bool)
+  /-- the function's value: these views -/
   | retViews (vs : List Nat)
   | opaque
 deriving Repr, DecidableEq
@@ -276,41 +300,69 @@ def noAlias : List View → Bool
   | [] => true
   | v :: rest => rest.all (fun w => (!v.wr && !w.wr) || v.disjoint w) && noAlias rest
 
-/-- `recvMut`: the receiver is `&mut GenericArray` (only then `as_mut_ptr()` type-checks) -/
-def vstep (recvMut : Bool) (e : Env) (s : VSt) : VStmt → Option (Sum (List View) VSt)
+/-- `recvMut`: the receiver / argument is a `&mut` (only then `as_mut_ptr()` type-checks).  `inl` ends the function. -/
+def vstep (recvMut : Bool) (e : Env) (s : VSt) : VStmt → Sum VOut VSt
   | .ptrSelf p wr =>
-    if wr && !recvMut then none
-    else some (.inr { s with ptrs := (p, ⟨0, 0, e.n, wr⟩) :: s.ptrs })
+    if wr && !recvMut then .inl .ub
+    else if wr then .inr ⟨[(p, ⟨0, 0, e.n, wr⟩)], []⟩        -- a mutable reborrow of the source: earlier pointers and views end
+    else .inr { s with ptrs := (p, ⟨0, 0, e.n, wr⟩) :: s.ptrs }
+  | .ptrArg p wr ext =>
+    match ext.eval e with
+    | some x =>
+      if wr && !recvMut then .inl .ub
+      else if wr then .inr ⟨[(p, ⟨0, 0, x, wr⟩)], []⟩
+      else .inr { s with ptrs := (p, ⟨0, 0, x, wr⟩) :: s.ptrs }
+    | none => .inl .ub
   | .ptrAdd q p k =>
     match lookupP s.ptrs p, k.eval e with
-    | some r, some d => if r.off + d ≤ r.hi then some (.inr { s with ptrs := (q, { r with off := r.off + d }) :: s.ptrs }) else none
-    | _, _ => none
+    | some r, some d => if r.off + d ≤ r.hi then .inr { s with ptrs := (q, { r with off := r.off + d }) :: s.ptrs } else .inl .ub
+    | _, _ => .inl .ub
   | .viewAt v p add len wr =>
     match lookupP s.ptrs p, add.eval e, len.eval e with
     | some r, some a, some l =>
       if decide (r.lo ≤ r.off + a) && decide (r.off + a + l ≤ r.hi) && (!wr || r.wr) then
-        some (.inr { s with views := (v, ⟨r.off + a, l, wr⟩) :: s.views })
-      else none
-    | _, _, _ => none
+        .inr { s with views := (v, ⟨r.off + a, l, wr⟩) :: s.views }
+      else .inl .ub
+    | _, _, _ => .inl .ub
   | .ptrOfView q v wr =>
     match lookupV s.views v with
-    | some w => if wr && !w.wr then none else some (.inr { s with ptrs := (q, ⟨w.off, w.off, w.off + w.len, wr⟩) :: s.ptrs })
-    | none => none
+    | some w => if wr && !w.wr then .inl .ub else .inr { s with ptrs := (q, ⟨w.off, w.off, w.off + w.len, wr⟩) :: s.ptrs }
+    | none => .inl .ub
+  | .panicIf c =>
+    match c.eval e with
+    | some true => .inl .panic
+    | some false => .inr s
+    | none => .inl .ub
+  | .assertThat c =>
+    match c.eval e with
+    | some true => .inr s
+    | some false => .inl .panic
+    | none => .inl .ub
+  | .errIf c =>
+    match c.eval e with
+    | some true => .inl .err
+    | some false => .inr s
+    | none => .inl .ub
+  | .emptyIf c a count wr =>
+    match c.eval e, a.eval e with
+    | some true, some true => .inl (.views (List.replicate count ⟨0, 0, wr⟩))
+    | some true, some false => .inl .panic
+    | some false, _ => .inr s
+    | _, _ => .inl .ub
   | .retViews vs =>
     match lookupVs s.views vs with
-    | some r => if noAlias r then some (.inl r) else none
-    | none => none
-  | .opaque => none
+    | some r => if noAlias r then .inl (.views r) else .inl .ub
+    | none => .inl .ub
+  | .opaque => .inl .ub
 
-def vexec (recvMut : Bool) (e : Env) : VSt → List VStmt → Option (List View)
-  | _, [] => none
+def vexec (recvMut : Bool) (e : Env) : VSt → List VStmt → VOut
+  | _, [] => .ub
   | s, st :: rest =>
     match vstep recvMut e s st with
-    | some (.inl r) => some r
-    | some (.inr s') => vexec recvMut e s' rest
-    | none => none
+    | .inl r => r
+    | .inr s' => vexec recvMut e s' rest
 
-/-- `none` = the body is not a valid way of producing its views (undefined behaviour or not lowered) -/
-def runViews (recvMut : Bool) (body : List VStmt) (e : Env) : Option (List View) := vexec recvMut e ⟨[], []⟩ body
+/-- `ub` = the body is not a valid way of producing its views (undefined behaviour, or not lowered) -/
+def runViews (recvMut : Bool) (body : List VStmt) (e : Env) : VOut := vexec recvMut e ⟨[], []⟩ body
 
 end GA.MemBody
